@@ -4,7 +4,7 @@
 (* linearisation step that reads or updates the registry atomically (the     *)
 (* critical section under the mutex), and a Return event.  The dialer found  *)
 (* at the linearisation point is the one that must receive the call.         *)
-EXTENDS Naturals, FiniteSets, TLC
+EXTENDS Integers, FiniteSets, TLC
 
 CONSTANTS Proc, Scheme, Dialer     \* Dialer: identities of registered dialers; 0 = none
 
